@@ -52,7 +52,8 @@ FAMILIES = {
              'non-trivial: two buses each start a handler'),
     'C07': dict(
         gens=[('core', dict(nb=(2, 3), p_forward=0.45, p_wild=0.4), 0.4),
-              ('core', dict(nb=(2, 4), p_forward=0.5, p_wild=0.5, p_redispatch=0.25, nh=(2, 8)), 0.3),
+              ('core', dict(nb=(2, 4), p_forward=0.5, p_wild=0.5, p_redispatch=0.25, nh=(2, 8)), 0.2),
+              ('core', dict(nb=(3, 4), p_forward=0.6, p_wild=0.6, nh=(3, 8), p_samenames=1.0), 0.1),
               ('core', dict(nb=(2, 3), p_forward=0.4, p_wild=0.5, p_timeout=0.6, nh=(3, 8), proglen=(1, 4)), 0.3)],
         facets=CORE + ['path', 'dispatch', 'results', 'lock', 'timeout'],
         rule='random forwarding digraphs (incl. self loops, several wildcard forwards per bus) with ordinary handlers and concurrent traffic; '
@@ -70,7 +71,8 @@ FAMILIES = {
              'non-trivial: a handler instance dispatches'),
     'C10': dict(
         gens=[('core', dict(p_timeout=0.6, proglen=(1, 6)), 0.45), ('chain', dict(p_timeout=1.0, p_selfparent=0.15), 0.25),
-              ('chain', dict(p_timeout=1.0, p_await=0.95, min_depth=3, nb=(1, 1), maxh=(50,)), 0.2), ('deep', dict(), 0.1)],
+              ('chain', dict(p_timeout=1.0, p_await=0.95, min_depth=3, nb=(1, 1), maxh=(50,)), 0.15), ('deep', dict(), 0.1),
+              ('sibling', dict(), 0.05)],
         facets=CORE + ['timeout', 'results', 'signal', 'unfinished', 'lineage', 'await', 'lock'],
         rule='per-type timeouts (odd multiples of 1/128 s) against handler programs of sleeps (multiples of 1/64 s), nested awaits; serial buses; '
              'non-trivial: a handler is cancelled by a deadline'),
@@ -146,7 +148,7 @@ def gen_backlog(rng, p_waitidle=0.0, **_):
     return sc
 
 
-GENS = {'core': gen.gen_core, 'backlog': gen_backlog, 'chain': gen.gen_chain, 'stop': gen.gen_stop, 'idle': gen.gen_idle, 'deep': gen.gen_deep}
+GENS = {'core': gen.gen_core, 'backlog': gen_backlog, 'chain': gen.gen_chain, 'stop': gen.gen_stop, 'idle': gen.gen_idle, 'deep': gen.gen_deep, 'sibling': gen.gen_sibling}
 
 
 def corpus(prop):
